@@ -26,6 +26,7 @@ type Env struct {
 	pkg  string
 	pure bool // inside a define: no state access
 	qdepth int // >0 inside a (non-unrolled) quantifier
+	visitedHeap string // range-over-map loop: heap holding the set of keys already iterated
 	unroll bool      // render literal-range quantifiers as conjunctions (candidate-model rendering)
 	reads  *[]string // inside a define body: seq element reads (in terms of the parameters)
 }
@@ -103,6 +104,20 @@ func (e *Env) evalAny(x SExpr) (v Val, err error) {
 		}
 	}()
 	return e.rvalue(e.eval(x)), nil
+}
+
+// evalArg evaluates an argument for a parameter of the given type.
+func (e *Env) evalArg(x SExpr, want types.Type) (v Val, err error) {
+	defer func() {
+		if r := recover(); r != nil {
+			if ee, ok := r.(evalErr); ok {
+				err = fmt.Errorf("%s", string(ee))
+				return
+			}
+			panic(r)
+		}
+	}()
+	return e.coerce(e.addrIfWanted(e.eval(x), want), want), nil
 }
 
 var tInt = types.Typ[types.Int]
@@ -198,6 +213,9 @@ func (e *Env) eval(x SExpr) Val {
 		if v.T.Sort != SIfc {
 			efail("`is` needs an interface value")
 		}
+		if _, isIface := ty.Underlying().(*types.Interface); isIface {
+			return boolVal(fmt.Sprintf("(and (not (= (i-tag %s) 0)) (%s (i-tag %s)))", v.T.S, t.vc.implPred(ty), v.T.S))
+		}
 		return boolVal(fmt.Sprintf("(= (i-tag %s) %s)", v.T.S, t.vc.tagOf(ty)))
 	case *SAssert:
 		v := e.rvalue(e.eval(x.X))
@@ -267,8 +285,7 @@ func (e *Env) object(obj types.Object) Val {
 		if e.cur == nil {
 			efail("state access in pure context")
 		}
-		name := "glob_" + mangle(shortKey(o.Pkg().Path()+"."+o.Name()))
-		t.vc.declFun(name, fmt.Sprintf("(declare-const %s Int)\n(assert (< %s 0))", name, name))
+		name := t.vc.globalAddr(mangle(shortKey(o.Pkg().Path() + "." + o.Name())))
 		a := t.addrOfTerm(name, o.Type())
 		if a.Kind == aStruct || a.Kind == aArray {
 			return Val{Ty: o.Type(), Loc: a}
@@ -861,6 +878,17 @@ func (e *Env) call(x *SCall) Val {
 			return intVal(fmt.Sprintf("(%s (select %s %s))", card, md, v.T.S))
 		}
 		efail("len of %v", v.Ty)
+	case "visited":
+		if e.visitedHeap == "" {
+			efail("visited() is only available in the invariant of a range-over-map loop")
+		}
+		k := e.rvalue(e.eval(x.Args[0]))
+		ks := t.vc.heapSort[e.visitedHeap]
+		return boolVal(fmt.Sprintf("(select %s %s)", t.heapGet(e.cur, e.visitedHeap, ks), k.T.S))
+	case "isobj":
+		// a reference to a separately allocated object (not an interior pointer, not nil)
+		v := e.rvalue(e.eval(x.Args[0]))
+		return boolVal(fmt.Sprintf("(> %s 0)", refOf(v)))
 	case "allocated":
 		v := e.rvalue(e.eval(x.Args[0]))
 		return boolVal(fmt.Sprintf("(< %s %s)", refOf(v), t.next(e.cur)))
@@ -959,6 +987,16 @@ func (t *Tr) ghostSort(g *GhostDecl) (Sort, []types.Type, types.Type) {
 	return s, ptys, rty
 }
 
+// addrIfWanted: a located struct passed where a pointer is expected denotes its address.
+func (e *Env) addrIfWanted(v Val, want types.Type) Val {
+	if v.Loc != nil && (v.Loc.Kind == aStruct || v.Loc.Kind == aArray) {
+		if _, isPtr := want.Underlying().(*types.Pointer); isPtr {
+			return Val{T: Term{v.Loc.Obj, SInt_}, Ty: want}
+		}
+	}
+	return e.rvalue(v)
+}
+
 func (e *Env) ghostApp(g *GhostDecl, args []SExpr) Val {
 	t := e.t
 	s, ptys, rty := t.ghostSort(g)
@@ -967,7 +1005,7 @@ func (e *Env) ghostApp(g *GhostDecl, args []SExpr) Val {
 	}
 	var as []string
 	for i, a := range args {
-		v := e.coerce(e.rvalue(e.eval(a)), ptys[i])
+		v := e.coerce(e.addrIfWanted(e.eval(a), ptys[i]), ptys[i])
 		if v.T.Sort != t.vc.sortOf(ptys[i]) {
 			efail("ghost %s: argument %d has sort %s, want %s", g.Name, i, v.T.Sort, t.vc.sortOf(ptys[i]))
 		}
